@@ -45,7 +45,7 @@ def req_cases(prop, abstract, rnd, tier):
             c.update(codec=rnd.choice(["json", "proto"]), gzip=rnd.random() < 0.25, spell=rnd.choice(["json", "proto"]),
                      invalid="", table=(d % 2 == 0), stream=rnd.random() < 0.15, fam="tc", zeropath=(prop == "C07" and d % 3 == 2),
                      framing=rnd.choice(["", "", "unsized", "chunked"]), compsub=False, ws=False,
-                     accept=rnd.choice(["", "", "*/*", "other", "other", "same"]))
+                     accept=rnd.choice(["", "", "*/*", "other", "other", "same"]), manyq=(rnd.random() < 0.3))
             out.append(c)
         if prop == "C07":
             # a query key that names a sub-field of the path-bound field (takes effect when that field is a wrapper,
